@@ -1,0 +1,94 @@
+//go:build verif
+// +build verif
+
+// More verification-only access to the download queue (property C18 of /verif): sync sessions on one queue, the memory cap
+// of the result window, sync modes and the receipt path.  Nothing in here is compiled into a normal build.
+
+package downloader
+
+import (
+	"github.com/youchainhq/go-youchain/common"
+	"github.com/youchainhq/go-youchain/core/types"
+)
+
+var (
+	verifDefaultCacheMemory = blockCacheMemory
+	verifDefaultSizeWeight  = blockCacheSizeWeight
+)
+
+// VerifSetMemory scales the package variables behind the memory cap of the result window: blockCacheMemory (bytes) and
+// blockCacheSizeWeight (1 makes resultSize the size of the block handed out last instead of a moving average).
+// mem <= 0 restores the defaults.
+func VerifSetMemory(mem int, weight float64) {
+	if mem <= 0 {
+		blockCacheMemory, blockCacheSizeWeight = verifDefaultCacheMemory, verifDefaultSizeWeight
+		return
+	}
+	blockCacheMemory, blockCacheSizeWeight = mem, weight
+}
+
+// ResultSize reads q.resultSize (bytes).
+func (v *VerifQueue) ResultSize() float64 {
+	v.q.lock.Lock()
+	defer v.q.lock.Unlock()
+	return float64(v.q.resultSize)
+}
+
+// NewSession starts another sync session on the same queue the way Downloader.synchronise / syncWithPeer do: queue.Reset()
+// followed by queue.Prepare(origin+1, mode).  window keeps the scaled size of the result cache (Reset sizes it from the
+// package variable blockCacheItems).
+func (v *VerifQueue) NewSession(origin uint64, window int) {
+	saved := blockCacheItems
+	blockCacheItems = window
+	v.q.Reset()
+	blockCacheItems = saved
+	v.q.Prepare(origin+1, FullSync)
+}
+
+// SetMode prepares the queue for another synchronisation mode ("full", "fast", "light") at the same origin, as
+// queue.Prepare(origin+1, mode) does at the start of a session.
+func (v *VerifQueue) SetMode(origin uint64, mode string) {
+	m := FullSync
+	switch mode {
+	case "fast":
+		m = FastSync
+	case "light":
+		m = LightSync
+	}
+	v.q.Prepare(origin+1, m)
+}
+
+// ScheduleSingle is queue.ScheduleSingle (the light synchronisation's entry for one header).
+func (v *VerifQueue) ScheduleSingle(h *types.Header) bool { return v.q.ScheduleSingle(h) }
+
+// ReserveReceipts is queue.ReserveReceipts for the stub peer `id`.
+func (v *VerifQueue) ReserveReceipts(id string, count int) (hashes []common.Hash, progress bool, err error) {
+	req, progress, err := v.q.ReserveReceipts(v.peer(id), count)
+	if req != nil {
+		for _, h := range req.Headers {
+			hashes = append(hashes, h.Hash())
+		}
+	}
+	return hashes, progress, err
+}
+
+// DeliverReceipts is queue.DeliverReceipts.
+func (v *VerifQueue) DeliverReceipts(id string, lists [][]*types.Receipt) (int, error) {
+	return v.q.DeliverReceipts(id, lists)
+}
+
+// VerifResultR is one fetchResult with both parts.
+type VerifResultR struct {
+	Header       *types.Header
+	Transactions types.Transactions
+	Receipts     types.Receipts
+}
+
+// ResultsWithReceipts is queue.Results(false), both parts of every result.
+func (v *VerifQueue) ResultsWithReceipts() []VerifResultR {
+	var out []VerifResultR
+	for _, r := range v.q.Results(false) {
+		out = append(out, VerifResultR{Header: r.Header, Transactions: r.Transactions, Receipts: r.Receipts})
+	}
+	return out
+}
